@@ -131,12 +131,16 @@ class RF:
         return self
 
 
+_FLOAT_TYPES = {"numpy.float64", "numpy.float32", "numpy.float_", "numpy.double", "builtins.float", "numpy.longdouble", "numpy.float128"}
+_BINFUNCS = {"numpy.add": "+", "numpy.subtract": "-", "numpy.multiply": "*", "numpy.divide": "/", "numpy.true_divide": "/"}
 _ELEMENTWISE = {
     "numpy.log": "log", "math.log": "log", "numpy.exp": "exp", "math.exp": "exp", "numpy.floor": "floor",
     "math.floor": "floor", "numpy.ceil": "ceil", "math.ceil": "ceil", "numpy.abs": "abs", "builtins.abs": "abs",
-    "scipy.special.zeta": "zeta", "numpy.log1p": "log1p",
+    "scipy.special.zeta": "zeta", "numpy.log1p": "log1p", "numpy.round": "round", "numpy.around": "round", "builtins.round": "round", "numpy.rint": "round",
+    "numpy.trunc": "trunc", "math.trunc": "trunc", "numpy.fix": "trunc", "numpy.sign": "sign", "numpy.absolute": "abs", "numpy.fabs": "abs",
+    "numpy.nan_to_num": "nan_to_num", "numpy.clip": "clip", "builtins.int": "toint", "numpy.int64": "toint", "numpy.int32": "toint",
 }
-_SUMS = {"numpy.sum", "builtins.sum", "numpy.nansum_not"}
+_SUMS = {"numpy.sum", "builtins.sum"}
 _IDENTITY = {"numpy.asarray", "numpy.array", "pyrepseq.util.ensure_numpy", "builtins.float", "numpy.float64"}
 
 
@@ -250,7 +254,12 @@ class RFContext:
                 if f[2] == "sum" and not args and not kw:
                     return self.sum_of(f[1])
                 if f[2] == "astype" and len(args) == 1:
-                    return self.rf(f[1])
+                    ty = strip(args[0])
+                    if (head(ty) == "glob" and ty[1] in _FLOAT_TYPES) or (is_const(ty) and ty[2] in ("float", "float64", "f8", "double")):
+                        return self.rf(f[1])          # widening to float keeps the value
+                    return self.fn("astype:" + (ty[1] if head(ty) == "glob" else show(ty, 20)), [self.rf(f[1])])   # narrowing / integer casts do not
+                if f[2] == "mean" and not args and not kw:
+                    return self.sum_of(f[1]) / self.length_of(f[1])
             if name in _SUMS and len(args) == 1 and not kw:
                 return self.sum_of(args[0])
             if name == "builtins.len" and len(args) == 1:
@@ -259,6 +268,21 @@ class RFContext:
                 return self.rf(args[0])
             if name in _ELEMENTWISE and not kw:
                 return self.fn(_ELEMENTWISE[name], [self.rf(a) for a in args])
+            if name in _BINFUNCS and len(args) == 2 and not kw:
+                return self.rf(("bin", _BINFUNCS[name], args[0], args[1]))
+            if name == "numpy.square" and len(args) == 1 and not kw:
+                return self.rf(args[0]).pow(2)
+            if name == "numpy.negative" and len(args) == 1 and not kw:
+                return -self.rf(args[0])
+            if name == "numpy.mean" and len(args) == 1 and not kw:
+                return self.sum_of(args[0]) / self.length_of(args[0])
+            if name in ("numpy.maximum", "numpy.minimum", "numpy.fmax", "numpy.fmin") and len(args) == 2 and not kw:
+                a, b = self.rf(args[0]), self.rf(args[1])
+                if a.same(b):
+                    return a
+                if _rf_key(b) < _rf_key(a):
+                    a, b = b, a
+                return self.fn("max" if "max" in name else "min", [a, b])
             if name in ("numpy.sqrt", "math.sqrt") and len(args) == 1:
                 return self.fn("pow", [self.rf(args[0]), RF(Poly.const(F(1, 2)))])
             if name in ("numpy.log2", "numpy.log10", "math.log2", "math.log10") and len(args) == 1:
